@@ -10,6 +10,7 @@ import (
 	"testing"
 	"time"
 
+	"verif/sim/curlsim"
 	"verif/sim/kernel"
 	"verif/sim/powsim"
 	"verif/sim/proto"
@@ -108,6 +109,14 @@ func generate(t *testing.T, prop, tier string, seed uint64, verbose bool, journa
 		}
 		return slipsim.Run(cfg)
 	}
+	if prop == "C06" {
+		cfg := curlsim.Gen(seed, tier)
+		if verbose {
+			b, _ := json.Marshal(cfg)
+			os.Stdout.WriteString("CONFIG " + string(b) + "\n")
+		}
+		return curlsim.Run(cfg)
+	}
 	t.Fatalf("unknown property %q", prop)
 	return proto.End{}
 }
@@ -127,6 +136,13 @@ func replay(t *testing.T, rf *proto.ReplayFile, journal func(step, who int, site
 			t.Fatal(err)
 		}
 		return slipsim.Run(&cfg)
+	}
+	if rf.Engine == "curlsim" {
+		var cfg curlsim.Config
+		if err := json.Unmarshal(rf.Config, &cfg); err != nil {
+			t.Fatal(err)
+		}
+		return curlsim.Run(&cfg)
 	}
 	t.Fatalf("unknown engine %q", rf.Engine)
 	return proto.End{}
